@@ -44,18 +44,37 @@ def registered_builtin(E, name):
     global _REG
     if _REG is None:
         src = open(os.path.join(REPO, 'src', 'lib.rs')).read(); _REG = {}
-        for m in re.finditer(r'(\w+Builtin)\s*\{\s*name:\s*"((?:[^"\\]|\\.)*)"\.to_string\(\),\s*body:\s*(\|)', src):
+        for m in re.finditer(r'(\w+Builtin)\s*\{\s*name:\s*"((?:[^"\\]|\\.)*)"\.to_string\(\),\s*body:\s*(\||[A-Za-z_]\w*\s*,)', src):
             pos = m.start(3); line = src.count('\n', 0, pos) + 1; col = pos - (src.rfind('\n', 0, pos) + 1) + 1
-            _REG[m.group(2)] = (m.group(1), f'{{closure@src/lib.rs:{line}:{col}:')
+            if m.group(3) != '|': _REG[m.group(2)] = (m.group(1), ('fn', m.group(3).rstrip(', \n')))          # body: a named function
+            else: _REG[m.group(2)] = (m.group(1), f'{{closure@src/lib.rs:{line}:{col}:')
     if name not in _REG: raise Missing(f'builtin {name!r} is not a closure registration in initialize')
     wrapper, key = _REG[name]
+    if isinstance(key, tuple):
+        fs = [g for g in E.by_last.get(key[1], []) if '{closure' not in g.name and g.name.split('::')[-1] == key[1]]
+        if len(fs) != 1: raise Missing(f'function {key[1]} (body of builtin {name!r}) not found uniquely in the MIR dump')
+        return Adt(wrapper, None, [sbytes(name), FnItem(fs[0].name)])
     tys = [ty for ty in E.closures if ty.startswith(key)]
     if len(tys) != 1: raise Missing(f'closure of builtin {name!r} not found in the MIR dump')
     return Adt(wrapper, None, [sbytes(name), Closure(tys[0], [])])
 
+_CMP = None
+def comparison_builtin(E, name):
+    """the real `ComparisonOperator::of("<", |a, b| ..)` registration: the struct with the real closure as `accept`"""
+    global _CMP
+    if _CMP is None:
+        src = open(os.path.join(REPO, 'src', 'lib.rs')).read(); _CMP = {}
+        for m in re.finditer(r'insert_builtin(?:_with_alias)?\(\s*ComparisonOperator::of\(\s*"([^"]+)",\s*(\|)', src):
+            pos = m.start(2); line = src.count('\n', 0, pos) + 1; col = pos - (src.rfind('\n', 0, pos) + 1) + 1
+            _CMP[m.group(1)] = f'{{closure@src/lib.rs:{line}:{col}:'
+    if name not in _CMP: raise Missing(f'comparison operator {name!r} is not a closure registration in initialize')
+    tys = [ty for ty in E.closures if ty.startswith(_CMP[name])]
+    if len(tys) != 1: raise Missing(f'closure of comparison operator {name!r} not found in the MIR dump')
+    return Adt('ComparisonOperator', None, [sbytes(name), Seq([]), Closure(tys[0], [])])
+
 PRECS = {'+': 5.0, '-': 5.0, '*': 6.0, '/': 6.0, '<': 2.0, '>': 2.0, '<=': 2.0, '>=': 2.0, '==': 2.0, '!=': 2.0, '++': 4.0, 'append': 0.0, 'to': 4.0, 'til': 4.0}
 REAL = {'+': 'Plus', '-': 'Minus', '*': 'Times', '/': 'Divide', 'append': 'Append', 'prepend': 'Prepend'}
-def top_env(bindings, builtins=('+', '-', '*', '<', '>', '<=', '>=', '==', '!=', 'print'), E=None, registered=(), structs=None):
+def top_env(bindings, builtins=('+', '-', '*', '<', '>', '<=', '>=', '==', '!=', 'print'), E=None, registered=(), structs=None, real_cmp=False):
     """a top-level Env: {name: value} for the program's free variables plus the named builtins; `registered`: names whose real
     closure registration is used (needs the engine E); `structs`: {name: Adt} for struct-implemented builtins built by the caller"""
     from mirsym.hashmap import hm
@@ -65,7 +84,7 @@ def top_env(bindings, builtins=('+', '-', '*', '<', '>', '<=', '>=', '==', '!=',
     for b, s in (structs or {}).items():
         entries.append(Tup([sbytes(b), Tup([Adt('ObjType', 'Any', []), BoxV(refcell(builtin_obj(s, PRECS.get(b, 0.0))))])]))
     for b in builtins:
-        s = Adt(REAL[b], None, []) if b in REAL else stub(b)
+        s = Adt(REAL[b], None, []) if b in REAL else (comparison_builtin(E, b) if real_cmp and b in ('<', '>', '<=', '>=', '==', '!=') else stub(b))
         entries.append(Tup([sbytes(b), Tup([Adt('ObjType', 'Any', []), BoxV(refcell(builtin_obj(s, PRECS.get(b, 0.0))))])]))
     for k, v in bindings.items():
         ty, val = v if isinstance(v, tuple) else (Adt('ObjType', 'Any', []), v)          # (declared type, value) or just a value
@@ -88,6 +107,10 @@ def eval_models(E, callee, args, argtys, callee0):
         if op == 'into_inner': return args[0].fields[0]
         r = args[0]; c, p = E.canon(r.cell, list(r.path) + [0]); g = Ref(c, p)
         return ok(g) if op.startswith('try_') else g
+    m = re.fullmatch(r"<\(?dyn (?:std::any::)?Any(?: \+ 'static)?\)?>::downcast_ref::<(\w+)>", callee0)
+    if m:          # Builtin::as_any + downcast_ref (try_chain of the comparison operators): Some iff the object is of that type
+        v = E.deref(args[0])
+        return opt(args[0]) if isinstance(v, Adt) and v.ty == m.group(1) else opt()
     m = re.fullmatch(r'<dyn (?:core::)?Builtin as (?:core::)?Builtin>::(run|run1|run2|try_chain|builtin_name|destructure|catamorphism)', callee)
     if m:
         b = E.deref(args[0])
